@@ -85,13 +85,10 @@ def events_of(op, res):
     evs = []
     for e in res.split(" ; "):
         e = e.strip()
-        if not e or e == "-" or e == "ok" or e.startswith("ok ") and k != "hist" or e.startswith("ntx="):
-            if e.startswith("ok ") and k == "hist":
-                e = e[3:]
-            else:
-                continue
-        if e.startswith("ok "):
+        if k == "hist" and e.startswith("ok "):
             e = e[3:]
+        if not e or e in ("-", "ok") or e.startswith(("ntx=", "RELOADERR", "LIVEERR", "SKIP")):
+            continue
         evs.append(e)
     return evs
 
@@ -111,6 +108,8 @@ def monitor_open(f, res):
     B, T, latest = int(f["B"]), int(f["T"]), int(f["latest"])
     if T > B:
         return "tracker DB round %d is ahead of the durable block round %d" % (T, B)
+    if int(f.get("confirmed", 0)) > B:
+        return "WaitForCommit(%s) had returned before the crash instant, but the crash image holds only %d blocks" % (f["confirmed"], B)
     if latest != B:
         return "reopened ledger is at round %d, the block DB of the image holds %d" % (latest, B)
     if f["hashes"] != "ok":
@@ -119,6 +118,10 @@ def monitor_open(f, res):
         return "the reopened ledger has a block beyond its latest round"
     if f["dump"] != f["want"]:
         return "state of the reopened ledger at round %d differs from a fresh ledger replaying blocks 1..%d: %s" % (latest, latest, res.split("diff=", 1)[-1][:300])
+    if "cpmark" in f and f["cpmark"] != "0/ok":
+        return "after OpenLedger the catchpoint 'writing first stage info' marker is still set (recoverFromCrash did not finish the first stage): cpmark=%s" % f["cpmark"]
+    if "cpfs" in f and f["cpfs"] == "false/true/ok":
+        return "the tracker DB round %d is a catchpoint first-stage round but its first stage info is missing after recoverFromCrash" % T
     if f["cont"] not in ("ok", "end"):
         return "the reopened ledger does not continue correctly with block %d: %s" % (latest + 1, res.split("cont=", 1)[-1][:300])
     return None
@@ -196,6 +199,12 @@ def run(ctx, replay_ops=None):
             for oi, (op, res) in enumerate(h["ops"]):
                 if "HANG" in res or res.startswith("PANIC"):
                     ctx.tie_failures.append("harness: %s -> %s" % (op[:100], res[:200]))
+                if "RELOADERR" in res:
+                    h["reloaderr"] = True
+                    ctx.violation("monitor: reloadLedger of a quiescent ledger (a clean restart: nothing in flight, nothing lost) failed: " + res.split("RELOADERR", 1)[1][:300],
+                                  {"kind": "monitor", "ops": [o for o, _ in h["ops"][:oi + 1]] + ["end"], "impl_out": res, "harness": hz}, found_input=True)
+                if res.startswith("LIVEERR") and not h.get("reloaderr"):
+                    ctx.tie_failures.append("harness: the live ledger refused a generated block: " + res[:300])
                 for e in events_of(op, res):
                     f.write(e + "\n"); index.append((hi, "ev", (oi, e)))
             for pi, (op, res) in enumerate(h["opens"]):
